@@ -137,7 +137,15 @@ func (e *lineError) Unwrap() error { return e.err }
 // or another execution of the same template when a template includes itself -
 // says nothing about a line of the caller, whatever failed in there: also a
 // block that the caller has stored and the partial replays.
-func blockErrorOf(err error, exec *execution) *blockError {
+func blockErrorOf(err error, exec *execution) (found *blockError) {
+	// the errors on the chain are the caller's own values as well: an
+	// Unwrap that panics (promoted from an embedded pointer that is nil,
+	// say) means that nothing more can be learnt from the chain
+	defer func() {
+		if recover() != nil {
+			found = nil
+		}
+	}()
 	for err != nil {
 		switch e := err.(type) {
 		case *blockError:
